@@ -201,4 +201,12 @@ theorem hooks_around_resources :
     Helm.Spec.precedes "cfg.execHook:HookPreDelete" "u.deleteRelease" Helm.Gen.skelUninstallRun = true ∧
     Helm.Spec.precedes "waiter.WaitForDelete" "cfg.execHook:HookPostDelete" Helm.Gen.skelUninstallRun = true := by decide
 
+/-- `--no-hooks` is bound to DisableHooks in all four commands (regenerated from pkg/cmd at every run). -/
+theorem no_hooks_flag_bound :
+    Helm.Spec.forwardsAll Helm.Gen.installFlags [("no-hooks", "client.DisableHooks")] = true ∧
+    Helm.Spec.forwardsAll Helm.Gen.upgradeFlags [("no-hooks", "client.DisableHooks")] = true ∧
+    Helm.Spec.forwardsAll Helm.Gen.rollbackFlags [("no-hooks", "client.DisableHooks")] = true ∧
+    Helm.Spec.forwardsAll Helm.Gen.uninstallFlags [("no-hooks", "client.DisableHooks")] = true := by
+  decide
+
 end Helm.Props.C12
